@@ -156,6 +156,9 @@ LOOPS = {
         ('error_is_nan_or_nonnegative', 'isnan(relative_error) or relative_error >= 0.0'),
         ('finite_error_means_finite_values',
          'implies(isfinite(relative_error), all(isfinite(new_value[%s[j][0]]) and isfinite(initial[%s[j][0]]) for j in range(0, h)))' % (ENDO, ENDO)),
+        # C11: the flag that turns into ValueError after the sweep records EVERY failed evaluation of the sweep, not only the last one
+        ('error_flag_records_every_failed_evaluation',
+         'had_evaluation_errors == any(1 <= eval_code(%s[j][1], initial) and eval_code(%s[j][1], initial) <= 3 for j in range(0, h))' % (ENDO, ENDO)),
     ]),
     8: LoopSpec(index='m', modifies=DMOD, ghost={'HI': 'heap_now()'}, invariants=[
         ('frame', FR), ('env_fresh', 'fresh(initial) and fresh(new_value) and new_value is not initial'),
